@@ -4,8 +4,9 @@
   Model: for each macro, longest name first, one left-to-right pass replacing every
   non-overlapping occurrence of the name that
     * is not preceded and not followed by a word character or a dot   `(?<![\w.])…(?![\w.])`
-    * is followed by a remainder holding an even number of double quotes
-      `(?=(?:[^"]|"[^"]*")*$)`
+    * is followed by a remainder made of whole string literals (a backslash escapes the
+      character after it) and characters outside literals
+      `(?=(?:[^"\\]|\\.|"(?:[^"\\]|\\.)*")*$)`
   by the parenthesised definition.  (ASCII word characters; queries with other letters are
   outside the modelled domain.)
 -/
@@ -21,12 +22,23 @@ def evenQuotes (s : List Char) : Bool := quoteCount s % 2 == 0
 
 def isPrefixOf (p s : List Char) : Bool := s.take p.length == p
 
+/-- The look-ahead `(?=(?:[^"\\]|\\.|"(?:[^"\\]|\\.)*")*$)`: the remainder consists of characters
+    outside literals, escaped characters and whole string literals in which a backslash escapes
+    the character after it (`.` does not match a line feed).  The alternatives start with
+    different characters, so the regexp engine has exactly one way to read the text: this scan.
+    `inLit`: inside a literal. -/
+def closedAfter : Bool → List Char → Bool
+  | inLit, [] => !inLit
+  | inLit, '\\' :: c :: r => if c == '\n' then false else closedAfter inLit r
+  | _, ['\\'] => false
+  | inLit, c :: r => if c == '"' then closedAfter (!inLit) r else closedAfter inLit r
+
 /-- Does the macro `name` match at the head of `s`, given the previous character? -/
 def matchesAt (name : List Char) (prev : Option Char) (s : List Char) : Bool :=
   isPrefixOf name s &&
   (match prev with | some c => !isWordDot c | none => true) &&
   (match (s.drop name.length).head? with | some c => !isWordDot c | none => true) &&
-  evenQuotes (s.drop name.length)
+  closedAfter false (s.drop name.length)
 
 /-- One pass for one macro. `skip` > 0: we are inside a matched name, whose characters are
     consumed without output. -/
